@@ -369,6 +369,20 @@ class Evaluator:
             if isinstance(st, ast.AnnAssign) and st.value is not None:
                 self.bind(st.target, self.ev(st.value, env), env)
                 continue
+            if isinstance(st, ast.AugAssign) and isinstance(st.target, ast.Name):
+                cur = self.ev(ast.BinOp(left=ast.Name(id=st.target.id, ctx=ast.Load()), op=st.op, right=st.value), env)
+                env[st.target.id] = cur
+                continue
+            if isinstance(st, ast.Expr) and isinstance(st.value, ast.Call) and isinstance(st.value.func, ast.Attribute) and isinstance(st.value.func.value, ast.Name) \
+                    and st.value.func.attr in ("add", "update", "append", "extend", "discard", "remove", "insert", "setdefault", "clear") \
+                    and isinstance(env.get(st.value.func.value.id), (set, list, dict)):
+                # mutation of a container that the fragment itself created
+                recv = env[st.value.func.value.id]
+                args = [self.ev(a, env) for a in st.value.args]
+                if st.value.keywords:
+                    raise Unknown("keyword arguments in a container mutation")
+                getattr(recv, st.value.func.attr)(*args)
+                continue
             raise Unknown(f"statement kind {type(st).__name__} outside the fragment")
 
 
